@@ -94,6 +94,13 @@ def run(ctx):
     dia = [c for c in relgen.diamond_cases(SAFE, seed=31) if "sort" in c.seq[1] or any("sort" in x for x in c.seq[2:4] if isinstance(x, tuple))]
     if quick:
         dia = random.Random(34).sample(dia, min(len(dia), 350))
+    # an order established first and needed by a take AFTER transforms that move it elsewhere (join, group, select ..): every such
+    # sequence of length 4 that starts with a sort and contains a take
+    carried = [c for c in relgen.systematic_cases(4, SAFE, seed=35, kinds=["sort", "join", "take", "group_agg", "group_take", "select", "derive"])
+               if c.seq[0] == "sort" and "take" in c.seq[1:] and len(c.seq) == 4]
+    if quick:
+        carried = random.Random(36).sample(carried, min(len(carried), 300))
+    dia = dia + carried
     ctx.coverage_extra["diamond_cases"] = len(dia)
     for label, rng, n, prof in [("let-boundary", None, 0, SAFE), ("diamond", None, 0, SAFE), ("fixed", random.Random(303), 500 if quick else 4000, SAFE), ("seed", ctx.rng, 300 if quick else 4000, SAFE)]:
         cases = letcases if label == "let-boundary" else dia if label == "diamond" else [relgen.make_case(rng, kinds=ORDER_KINDS, max_tr=7, **prof) for _ in range(n)]
